@@ -119,3 +119,15 @@ CHECKS["C15"] = {
     "note": ("Not decided: that a sealed document still verifies after being written and read back (rests on canonicalisation being a fixed point: C01), and that every single-site "
              "content mutation changes the digest (a property of SHA-256 and of the emitter's injectivity)."),
 }
+
+CHECKS["C14"] = {
+    "technique": "static analysis: exhaustiveness of isinstance dispatch in every format converter over the node/value kinds the parser constructs, sibling agreement MCP vs CLI (wrapper idiom resolved), shape rules on project() and effect analysis of the projector",
+    "text": ("Decides: every JSON/YAML/Markdown converter (MCP and CLI) has a branch for each node kind that carries keys/values (Assignment, Block, Section) and each value kind "
+             "(ListValue, InlineMap, LiteralZoneValue, HolographicValue) - the kinds are read from what parser.py constructs; CLI converters are the MCP ones (pure wrappers are "
+             "resolved) or dispatch identically; in project() a result whose document is not the input itself has lossy=True constant and non-empty fields_omitted, and the full views "
+             "return the input document and emit(doc); the projector writes no field, constructs no node, only replace(node, children=<filter result>) and appends existing nodes, and "
+             "keeps by `node.key in keep_set`; the eject tool/CLI pass the caller's mode, feed every content format from result.filtered_doc and report the projection's own lossy / "
+             "fields_omitted. The 13 converter gaps found on the pinned tree were repaired by a fix: commit."),
+    "note": ("Not decided: leaf-set equality between formats on concrete documents (duplicate keys collapse in dict-based formats; block targets are not rendered outside OCTAVE); "
+             "what a converter does inside a branch beyond having it."),
+}
